@@ -979,37 +979,67 @@ impl<'a> Gen<'a> {
         self.feat("qualified-rule");
         format!("{}{}{{{}}}", self.selector_list(0), self.ows(), self.declarations())
     }
+    /// a keyword in a random letter case (CSS keywords are ASCII case-insensitive); mostly as given
+    fn kw(&mut self, w: &str) -> String {
+        match self.rng.below(6) {
+            0 => w.to_ascii_uppercase(),
+            1 => w.chars().enumerate().map(|(i, c)| if i % 2 == 0 { c.to_ascii_uppercase() } else { c }).collect(),
+            _ => w.to_string(),
+        }
+    }
     fn host_rule(&mut self) -> String {
-        match self.rng.below(12) {
+        let host = self.kw("host");
+        let host = host.as_str();
+        match self.rng.below(16) {
             0..=6 => {
                 self.feat("host-pure");
-                format!(":host{}{{{}}}", self.ows(), self.declarations())
+                format!(":{}{}{{{}}}", host, self.ows(), self.declarations())
             }
             7 => {
                 self.feat("host-function");
-                format!(":host({}){}{{{}}}", self.selector_list(1), self.ows(), self.declarations())
+                format!(":{}({}){}{{{}}}", host, self.selector_list(1), self.ows(), self.declarations())
             }
             8 => {
                 self.feat("host-combined");
-                format!(":host{}{}{{{}}}", self.ws(), self.complex(0), self.declarations())
+                format!(":{}{}{}{{{}}}", host, self.ws(), self.complex(0), self.declarations())
             }
             9 => {
                 self.feat("host-combined");
-                format!(":host{},{}{}{{{}}}", self.ows(), self.ows(), self.complex(0), self.declarations())
+                format!(":{}{},{}{}{{{}}}", host, self.ows(), self.ows(), self.complex(0), self.declarations())
             }
             10 => {
                 self.feat("host-not-first");
-                format!("{}{}:host{{{}}}", self.compound(0), self.ws(), self.declarations())
+                format!("{}{}:{}{{{}}}", self.compound(0), self.ws(), host, self.declarations())
             }
-            _ if !self.clean => {
+            11 => {
+                // `:host` later in the selector list, or glued to a compound selector
+                self.feat("host-late");
+                match self.rng.below(4) {
+                    0 => format!("{}{},{}:{}{}{{{}}}", self.complex(0), self.ows(), self.ows(), host, self.ows(), self.declarations()),
+                    1 => format!("{}:{}{{{}}}", self.compound(0), host, self.declarations()),
+                    2 => format!("{}{}>{}:{}({}){}{{{}}}", self.compound(0), self.ows(), self.ows(), host, self.compound(1), self.ws(), self.declarations()),
+                    _ => format!("{},{}:{}{},{}{}{{{}}}", self.complex(0), self.ows(), host, self.ows(), self.ows(), self.complex(0), self.declarations()),
+                }
+            }
+            12 => {
+                // not `:host`: nested in a selector function, a longer name, a class of that name
+                self.feat("host-lookalike");
+                match self.rng.below(4) {
+                    0 => format!("{}:is(:{}){{{}}}", self.compound(0), host, self.declarations()),
+                    1 => format!(":{}-context(.a){}{{{}}}", host, self.ows(), self.declarations()),
+                    2 => format!(".{}{}{{{}}}", host, self.ows(), self.declarations()),
+                    _ => format!("::{}{}{{{}}}", host, self.ows(), self.declarations()),
+                }
+            }
+            13 | 14 if !self.clean => {
                 self.feat("host-spaced");
                 // `:/**/host` (a comment does not separate tokens) or `: host` (not a pseudo-class)
                 let gap = if self.rng.chance(1, 2) { self.comment() } else { self.ws() };
-                format!(":{}host{}{{{}}}", gap, self.ows(), self.declarations())
+                format!(":{}{}{}{{{}}}", gap, host, self.ows(), self.declarations())
             }
             _ => {
                 self.feat("host-pure");
-                format!(":host{{{}}}", self.declarations())
+                format!(":{}{{{}}}", host, self.declarations())
             }
         }
     }
@@ -1018,7 +1048,10 @@ impl<'a> Gen<'a> {
         if self.clean && [2usize, 3, 4, 7, 13, 15].contains(&k) {
             k = [0usize, 1, 5, 6, 10, 12][self.rng.below(6)];
         }
-        let name = ["media", "supports", "layer", "container", "scope", "keyframes", "font-face", "layer", "charset", "namespace", "document", "page", "foo", "MEDIA", "property", "starting-style"][k];
+        let mut name = ["media", "supports", "layer", "container", "scope", "keyframes", "font-face", "layer", "charset", "namespace", "document", "page", "foo", "MEDIA", "property", "starting-style"][k];
+        if name == "document" && self.rng.chance(1, 2) {
+            name = if self.rng.chance(1, 3) { "-MOZ-Document" } else { "-moz-document" };
+        }
         *self.at_rules.entry(name.to_string()).or_insert(0) += 1;
         match name {
             "media" | "MEDIA" => {
@@ -1060,7 +1093,9 @@ impl<'a> Gen<'a> {
                 self.ows(), self.selector_list(1), self.ws(), self.ws(), self.selector_list(1), self.ows(), self.rule_list(depth + 1)
             ),
             "starting-style" => format!("@starting-style{}{{{}}}", self.ows(), self.rule_list(depth + 1)),
-            "document" => format!("@document{}url(http://x/){}{{{}}}", self.ws(), self.ows(), self.rule_list(depth + 1)),
+            "document" | "-moz-document" | "-MOZ-Document" => {
+                format!("@{}{}url-prefix(http://x/){}{{{}}}", name, self.ws(), self.ows(), self.rule_list(depth + 1))
+            }
             "keyframes" => {
                 let mut body = self.ows();
                 let n = 1 + self.rng.below(3);
@@ -1136,21 +1171,27 @@ impl<'a> Gen<'a> {
             2 if !p.contains('\'') && !p.contains('\\') => format!("'{}'", p),
             _ => format!("\"{}\"", p),
         };
-        let mut s = format!("@import{}{}", self.ws(), target);
+        let mut s = format!("@{}{}{}", self.kw("import"), self.ws(), target);
         if self.rng.chance(1, 4) {
-            self.feat("import-layer");
-            s.push_str(&format!("{}layer({})", self.ws(), self.ident()));
+            if self.rng.chance(1, 3) {
+                // the bare keyword: an anonymous layer
+                self.feat("import-layer-keyword");
+                s.push_str(&format!("{}{}", self.ws(), self.kw("layer")));
+            } else {
+                self.feat("import-layer");
+                s.push_str(&format!("{}{}({})", self.ws(), self.kw("layer"), self.ident()));
+            }
         }
         if self.rng.chance(1, 4) {
             self.feat("import-supports");
             let v = if self.clean { self.dimension() } else { self.value(2) };
-            s.push_str(&format!("{}supports({}:{}{})", self.ws(), unesc(self.pk(PROPS)), self.ows(), v));
+            s.push_str(&format!("{}{}({}:{}{})", self.ws(), self.kw("supports"), unesc(self.pk(PROPS)), self.ows(), v));
         }
         if self.rng.chance(1, 3) {
             self.feat("import-media");
             // every media type (also `all`, in either case, which matches every device and still has to be
             // carried into the wrapper with the rest of its query)
-            let types = ["screen", "print", "all", "ALL", "All", "speech", "tv"];
+            let types = ["screen", "print", "all", "ALL", "All", "speech", "tv", "layer"];
             let ty = *self.rng.pick(&types);
             let ty2 = *self.rng.pick(&types);
             let q = match self.rng.below(8) {
@@ -1195,6 +1236,11 @@ impl<'a> Gen<'a> {
     }
     pub fn stylesheet(&mut self) -> String {
         let mut s = self.ows();
+        if self.rng.chance(1, 8) {
+            // `@charset` may precede the imports
+            self.feat("charset-first");
+            s.push_str(&format!("@{} \"utf-8\";{}", self.kw("charset"), self.ows()));
+        }
         let ni = if self.rng.chance(1, 3) { 1 + self.rng.below(3) } else { 0 };
         for _ in 0..ni {
             s.push_str(&self.import_rule());
